@@ -86,7 +86,7 @@ def _case(draw):
     order = draw(st.permutations(['d1', 'd2', 'd3', 'f1', 'f2', 'box', 'arr', 'e1', 'e2', 'e0'] + [s['path'][0] for s in slots if len(s['path']) == 1]))
     ndocs = draw(st.integers(1, 3))
     split = [draw(st.integers(0, ndocs - 1)) for _ in order]
-    return {'slots': slots, 'order': list(order), 'split': split, 'ndocs': ndocs}
+    return {'slots': slots, 'order': list(order), 'split': split, 'ndocs': ndocs, 'prebuild': draw(st.integers(0, 2)) == 0}
 
 
 def strategy():
@@ -168,10 +168,17 @@ def run_case(case):
     src = '\nsources:\n' + '\n'.join(texts)
     verdict, info = analyse(case)
     labels = {'docs=%d' % len(ds), 'expect-' + verdict, 'refs=%s' % ('>12' if len(case['slots']) > 12 else '<=12')}
+    ctx = None
+    if case.get('prebuild') and verdict == 'ok':
+        # the same evaluation context has already evaluated this config once: nothing of that may show in the second build
+        from awesomeyaml import EvalContext
+        ctx = EvalContext()
+        O.try_call(O.build_config, texts, eval_ctx=ctx)
+        labels.add('context-reused-after-an-earlier-build')
     vfrec.reset()
     try:
         with StepBudget(STEP_LIMIT) as sb:
-            status, got = O.try_call(O.build_config, texts)
+            status, got = O.try_call(O.build_config, texts, eval_ctx=ctx)
     except StepBudgetExceeded:
         raise Violation(f'C09: evaluation does not terminate (more than {STEP_LIMIT} line events inside awesomeyaml){src}')
     except RecursionError:
